@@ -1,4 +1,22 @@
 CHECKS = {
+ "C09": {
+  "text": "Generated inputs for all 7 kernels (parameters with exact squares, elements exactly at / 2^k eps around the threshold, 0, tiny, "
+          "huge; both dtypes; any shape) against 40-digit mpmath closed forms (value, finiteness, k(0)=0, monotone, Huber value and slope "
+          "continuity), a rejection clause for negative input, and the FastTriggs / Triggs identities (robust gradient; Gauss-Newton "
+          "Hessian where rho''>0) for built-in and 10 user kernels (rho''>0, =0, <0, mixed sign) with the harness's own rho', rho''.",
+  "design_ref": "DESIGN.md section 3, C09",
+  "note": "mpmath reference written from the documented formulas (self-tested against mp.diff); loose design tolerance 1e-9 (float64) on the corrector identities.",
+  "technique": "property-based testing: Hypothesis generators against closed-form references and algebraic identities",
+ },
+ "C20": {
+  "text": "A reference automaton written from the docstrings drives (i) an exhaustive prefix-shared enumeration of all loss histories over the "
+          "abstract alphabet for steps 1..4 x patience 1..3 (quick; ~1.1e6 histories) / steps 1..6 x patience 1..4 up to length 12 "
+          "(thorough), (ii) Hypothesis sequences of real and batched losses with resets, (iii) the driver loops (scheduler.optimize on "
+          "stub and real optimizers, MPC, ICP called repeatedly) with counting wrappers. Complete for the enumerated box; exploration beyond.",
+  "design_ref": "DESIGN.md section 3, C20",
+  "note": "Losses are generated only where the absolute and relative readings of 'decrease by the configured amount' agree; counters are asserted only up to the stopping step.",
+  "technique": "property-based testing / model-based testing: exhaustive history enumeration and Hypothesis sequences against a reference automaton",
+ },
  "C07": {
   "text": "Generated models (mixed parameter kinds, batch items, frozen parameters, residual programs from C04's grammar, second outputs, "
           "targets, SPD weights, kernels, correctors, solvers, strategies, clamps, vectorize) and ONE optimizer step each, compared with an "
